@@ -138,7 +138,16 @@ func (c *sivCase) exercise() {
 	for n := 0; n <= 80; n++ {
 		ptLens = append(ptLens, n)
 	}
-	ptLens = append(ptLens, 255, 256, 257, 4096)
+	// every length well beyond the first few blocks: chunked / batched processing of the leading blocks (e.g. a
+	// 128-byte stride) only shows for particular length classes (found by an independently seeded change)
+	longMax := 700
+	if x.Thorough() {
+		longMax = 2200
+	}
+	for n := 81; n <= longMax; n++ {
+		ptLens = append(ptLens, n)
+	}
+	ptLens = append(ptLens, 4096, 4097, 8191, 8192, 8208)
 	// (plaintext pattern, AD pattern)
 	pats := [][2]int{{2, 3}}
 	if x.Thorough() {
@@ -148,6 +157,9 @@ func (c *sivCase) exercise() {
 		for _, n := range ptLens {
 			pt := ref.Pattern(pat[0], n)
 			for ai := 0; ai <= 41; ai++ {
+				if n > 80 && ai != 0 && ai != 6 && ai != 18 {
+					continue // long plaintexts: AD nil, 5 and 17 bytes
+				}
 				ad := adOf(pat[1], ai)
 				ptIn, adIn := bytes.Clone(pt), bytes.Clone(ad)
 				if ad == nil {
@@ -514,7 +526,14 @@ func xorendSection(x *h.X) {
 	for n := 0; n <= maxLen; n++ {
 		lens = append(lens, n)
 	}
-	lens = append(lens, 255, 256, 257, 1024)
+	longMax := 700
+	if x.Thorough() {
+		longMax = 2200
+	}
+	for n := maxLen + 1; n <= longMax; n++ {
+		lens = append(lens, n)
+	}
+	lens = append(lens, 4096, 4097, 8192, 8208)
 	lasts := [][]byte{ref.Pattern(3, 16), ref.Pattern(0, 16), ref.Pattern(1, 16), ref.KeyBytes("last", 16)}
 	for _, n := range lens {
 		for pk := 0; pk < 4; pk++ {
